@@ -228,6 +228,17 @@ func solveAll(g *Gen, obs []*Oblig, dir string, workers, quickSecs, fullSecs int
 	res := make([]*Result, len(obs))
 	var wg sync.WaitGroup
 	sem := make(chan struct{}, workers)
+	used := map[string]int{}
+	files := make([]string, len(obs))
+	for k, o := range obs {
+		// one file per obligation, also when two obligations carry the same name
+		n := sanitize(o.Name)
+		used[n]++
+		if used[n] > 1 {
+			n = fmt.Sprintf("%s.dup%d", n, used[n])
+		}
+		files[k] = filepath.Join(dir, n+".smt2")
+	}
 	for k, o := range obs {
 		k, o := k, o
 		wg.Add(1)
@@ -237,7 +248,7 @@ func solveAll(g *Gen, obs []*Oblig, dir string, workers, quickSecs, fullSecs int
 			defer func() { <-sem }()
 			solverSlots <- struct{}{}
 			defer func() { <-solverSlots }()
-			file := filepath.Join(dir, sanitize(o.Name)+".smt2")
+			file := files[k]
 			os.WriteFile(file, []byte(obligQuery(pre, bodies[k], o, "")), 0o644)
 			t0 := time.Now()
 			var v, s, out string
